@@ -198,6 +198,20 @@ func (w *World) canon(v ssa.Value, d int) string {
 			if s, ok := w.canonForwarded(c, x.Index, d); ok {
 				return s
 			}
+			// a helper that hands back the leading results of one call it makes and panics
+			// on that call's error (`mustCommit(c)`): its i-th result is the call's
+			if fn := c.Common().StaticCallee(); fn != nil && len(fn.Params) == len(c.Common().Args) && len(w.inlineEnv) < 3 {
+				if inner := w.prefixForwarder(fn); inner != nil {
+					env := map[*ssa.Parameter]string{}
+					for i, p := range fn.Params {
+						env[p] = w.canon(c.Common().Args[i], d+1)
+					}
+					w.inlineEnv = append(w.inlineEnv, env)
+					out := w.canonCall(inner.Common(), d+1) + "#" + fmt.Sprint(x.Index)
+					w.inlineEnv = w.inlineEnv[:len(w.inlineEnv)-1]
+					return out
+				}
+			}
 			// one result of a single-block helper without effects, when helpers are inlined
 			if w.inlineHelpers && len(w.inlineEnv) < w.inlineLimit() {
 				if fn := c.Common().StaticCallee(); fn != nil && len(fn.Params) == len(c.Common().Args) {
@@ -305,6 +319,9 @@ func (w *World) canon(v ssa.Value, d int) string {
 // L.GetFinality(k) }; return L.Get(k)`), and fn does nothing else. Returns those calls.
 func (w *World) forwardedCalls(fn *ssa.Function) []*ssa.Call {
 	isClosure := fn != nil && fn.Parent() != nil
+	if c := w.renamingWrapper(fn); c != nil {
+		return []*ssa.Call{c}
+	}
 	if fn == nil || fn.Blocks == nil || !w.InModule(fn) || (!isClosure && token.IsExported(fn.Name())) || (!isClosure && len(fn.Blocks) < 2) || len(fn.Blocks) > 12 {
 		return nil
 	}
@@ -380,6 +397,136 @@ func (w *World) forwardedCalls(fn *ssa.Function) []*ssa.Call {
 	}
 	w.fwdMemo[fn] = out
 	return out
+}
+
+// renamingWrapper: a package-private function that does nothing but hand its own
+// parameters (converted at most) to one other call and return that call's results
+// unchanged (`func keyOf(a []byte) LedgerKey { return ledger.ToLedgerKey(a) }`): a
+// second name for the callee. Returns the inner call.
+func (w *World) renamingWrapper(fn *ssa.Function) *ssa.Call {
+	if fn == nil || fn.Parent() != nil || !w.InModule(fn) || len(fn.Blocks) != 1 || token.IsExported(fn.Name()) || fn.Signature.Results().Len() == 0 {
+		return nil
+	}
+	var call *ssa.Call
+	var ret *ssa.Return
+	for _, in := range fn.Blocks[0].Instrs {
+		switch x := in.(type) {
+		case *ssa.Call:
+			if call != nil {
+				return nil
+			}
+			call = x
+		case *ssa.Return:
+			ret = x
+		case *ssa.ChangeType, *ssa.Convert, *ssa.Extract, *ssa.DebugRef, *ssa.MakeInterface, *ssa.ChangeInterface:
+		default:
+			return nil
+		}
+	}
+	if call == nil || ret == nil || call.Common().IsInvoke() || call.Common().StaticCallee() == nil || call.Common().StaticCallee() == fn {
+		return nil
+	}
+	for _, a := range call.Common().Args {
+		switch y := stripConv(a).(type) {
+		case *ssa.Parameter, *ssa.Const:
+			_ = y
+		default:
+			return nil
+		}
+	}
+	nres := fn.Signature.Results().Len()
+	if len(ret.Results) != nres {
+		return nil
+	}
+	for i, rv := range ret.Results {
+		switch y := rv.(type) {
+		case *ssa.Call:
+			if nres != 1 || y != call {
+				return nil
+			}
+		case *ssa.Extract:
+			if y.Tuple != ssa.Value(call) || y.Index != i {
+				return nil
+			}
+		default:
+			return nil
+		}
+	}
+	return call
+}
+
+// prefixForwarder: a package-private function whose every return hands back, in
+// order, the leading results of one call it makes; the call's remaining result is
+// only compared with nil, and the other exits panic; nothing else happens.
+func (w *World) prefixForwarder(fn *ssa.Function) *ssa.Call {
+	if fn == nil || fn.Parent() != nil || fn.Blocks == nil || !w.InModule(fn) || token.IsExported(fn.Name()) || len(fn.Blocks) > 4 || fn.Signature.Results().Len() < 2 {
+		return nil
+	}
+	if w.prefixFwdMemo == nil {
+		w.prefixFwdMemo = map[*ssa.Function]*ssa.Call{}
+	}
+	if c, ok := w.prefixFwdMemo[fn]; ok {
+		return c
+	}
+	w.prefixFwdMemo[fn] = nil
+	var call *ssa.Call
+	nret := 0
+	for _, b := range fn.Blocks {
+		for _, in := range b.Instrs {
+			switch x := in.(type) {
+			case *ssa.Call:
+				if call != nil {
+					return nil
+				}
+				call = x
+			case *ssa.Return:
+				nret++
+			case *ssa.Extract, *ssa.BinOp, *ssa.If, *ssa.Jump, *ssa.Panic, *ssa.MakeInterface, *ssa.ChangeInterface, *ssa.DebugRef:
+			default:
+				return nil
+			}
+		}
+	}
+	if call == nil || nret != 1 {
+		return nil
+	}
+	nres := fn.Signature.Results().Len()
+	if tup, ok := call.Type().(*types.Tuple); !ok || tup.Len() != nres+1 {
+		return nil
+	}
+	for _, b := range fn.Blocks {
+		ret, ok := lastInstr(b).(*ssa.Return)
+		if !ok {
+			continue
+		}
+		if len(ret.Results) != nres {
+			return nil
+		}
+		for i, rv := range ret.Results {
+			ex, ok := rv.(*ssa.Extract)
+			if !ok || ex.Tuple != ssa.Value(call) || ex.Index != i {
+				return nil
+			}
+		}
+	}
+	// the last result is only compared with nil
+	for _, ref := range *call.Referrers() {
+		if ex, ok := ref.(*ssa.Extract); ok && ex.Index == nres {
+			for _, r2 := range *ex.Referrers() {
+				switch y := r2.(type) {
+				case *ssa.BinOp:
+					if c, isC := y.Y.(*ssa.Const); !isC || !c.IsNil() {
+						return nil
+					}
+				case *ssa.MakeInterface, *ssa.ChangeInterface, *ssa.Panic, *ssa.DebugRef:
+				default:
+					return nil
+				}
+			}
+		}
+	}
+	w.prefixFwdMemo[fn] = call
+	return call
 }
 
 // canonForwarded prints the result of a selector call as the join of what it forwards.
@@ -1033,6 +1180,19 @@ func (w *World) canonCall(c *ssa.CallCommon, d int) string {
 			args = append(args, w.canon(a, d+1))
 		}
 		return w.canon(c.Value, d+1) + "." + c.Method.Name() + "(" + strings.Join(args, ", ") + ")"
+	}
+	// a method value called through its variable (`f := x.m; f(a)`) is the call x.m(a)
+	if mc, isMC := c.Value.(*ssa.MakeClosure); isMC && len(mc.Bindings) == 1 {
+		if tgt := boundTarget(mc.Fn.(*ssa.Function)); tgt != nil {
+			for _, a := range c.Args {
+				args = append(args, w.canon(a, d+1))
+			}
+			mname := tgt.Name()
+			if o := tgt.Origin(); o != nil {
+				mname = o.Name()
+			}
+			return w.canon(mc.Bindings[0], d+1) + "." + mname + "(" + strings.Join(args, ", ") + ")"
+		}
 	}
 	if fn := c.StaticCallee(); fn != nil {
 		if fn.Signature.Recv() != nil && len(c.Args) > 0 {
